@@ -6,7 +6,7 @@ V = os.path.dirname(os.path.dirname(os.path.abspath(__file__)))
 M = [
  ('fri_final_poly_check_removed', [('plonky2/src/fri/verifier.rs', '    ensure!(\n        proof.final_poly.eval(subgroup_x.into()) == old_eval,\n        "Final polynomial evaluation is invalid."\n    );', '    let _ = proof.final_poly.eval(subgroup_x.into()) == old_eval;')], ['C05'], 'R05.1'),
  ('sponge_no_clear', [('plonky2/src/iop/challenger.rs', '        self.output_buffer.clear();\n\n        self.input_buffer.push(element);', '        self.input_buffer.push(element);')], ['C04'], 'R04.4'),
- ('drop_hiding_both_sides', [('plonky2/src/fri/mod.rs', '        challenger.observe_element(F::from_bool(self.hiding));', ''), ('plonky2/src/fri/mod.rs', '        challenger.observe_element(hiding);', '')], ['C04'], 'R04.1'),
+ ('drop_hiding_both_sides', [('plonky2/src/fri/mod.rs', '        challenger.observe_element(F::from_bool(self.hiding));', ''), ('plonky2/src/fri/mod.rs', '        challenger.observe_element(builder.constant(F::from_bool(self.hiding)));', '')], ['C04'], 'R04.1'),
  ('drop_openings_absorb_all', [('plonky2/src/plonk/get_challenges.rs', '    challenger.observe_openings(&openings.to_fri_openings());', ''), ('plonky2/src/plonk/prover.rs', '    challenger.observe_openings(&openings.to_fri_openings());', ''), ('plonky2/src/plonk/get_challenges.rs', '        challenger.observe_openings(&openings.to_fri_openings());', '')], ['C04'], 'R04.1'),
  ('circuit_only_drop_final_poly_absorb', [('plonky2/src/fri/challenges.rs', '        self.observe_extension_elements(&final_poly.0);', '')], ['C04'], 'R04.'),
  ('pow_check_removed', [('plonky2/src/fri/verifier.rs', '    fri_verify_proof_of_work(challenges.fri_pow_response, &params.config)?;\n\n    // Check that parameters are coherent.\n    ensure!(\n        params.config.num_query_rounds == proof.query_round_proofs.len(),', '    ensure!(\n        params.config.num_query_rounds == proof.query_round_proofs.len(),')], ['C05'], 'R05.1'),
@@ -19,6 +19,29 @@ BEHAVIOUR_PRESERVING = [
  ('bp_observe_elements_as_loop', [('plonky2/src/fri/mod.rs', '        challenger.observe_elements(&self.reduction_strategy.serialize());', '        for e in self.reduction_strategy.serialize() {\n            challenger.observe_element(e);\n        }')], ['C04'], None),
  ('bp_swap_independent_absorbs', [('plonky2/src/plonk/get_challenges.rs', '    challenger.observe_hash::<C::Hasher>(*circuit_digest);\n    challenger.observe_hash::<C::InnerHasher>(public_inputs_hash);', '    challenger.observe_hash::<C::InnerHasher>(public_inputs_hash);\n    challenger.observe_hash::<C::Hasher>(*circuit_digest);')], ['C04'], None),
 ]
+
+M += [
+ ('c06_circuit_final_poly_connect_removed', [('plonky2/src/fri/recursive_verifier.rs', '            proof.final_poly.eval_scalar(self, subgroup_x)\n        );\n        self.connect_extension(eval, old_eval);\n    }\n\n    fn fri_verifier_query_round_with_multiple_degree_bits', '            proof.final_poly.eval_scalar(self, subgroup_x)\n        );\n        let _ = (eval, old_eval);\n    }\n\n    fn fri_verifier_query_round_with_multiple_degree_bits')], ['C06'], 'R06.1'),
+ ('c06_witness_quotient_cap_not_set', [('plonky2/src/iop/witness.rs', '        self.set_cap_target(&proof_target.quotient_polys_cap, &proof.quotient_polys_cap)?;\n', '')], ['C06'], 'R06.3'),
+ ('c06_target_opening_order_swapped', [('plonky2/src/plonk/proof.rs', '                    self.wires.as_slice(),\n                    self.plonk_zs.as_slice(),\n                    self.partial_products.as_slice(),\n                    self.quotient_polys.as_slice(),\n                    self.lookup_zs.as_slice(),\n                ]\n                .concat(),\n            }\n        } else {\n            FriOpeningBatchTarget {', '                    self.plonk_zs.as_slice(),\n                    self.wires.as_slice(),\n                    self.partial_products.as_slice(),\n                    self.quotient_polys.as_slice(),\n                    self.lookup_zs.as_slice(),\n                ]\n                .concat(),\n            }\n        } else {\n            FriOpeningBatchTarget {')], ['C06'], 'R06.4'),
+ ('c17_gate_field_dropped_both_sides', [('plonky2/src/gates/random_access.rs', '        dst.write_usize(self.num_extra_constants)?;\n', ''), ('plonky2/src/gates/random_access.rs', '        let num_extra_constants = src.read_usize()?;', '        let num_extra_constants = 0;')], ['C17'], 'R17.3'),
+ ('c17_kind_changed_one_side', [('plonky2/src/gates/base_sum.rs', '        dst.write_usize(self.num_limbs)', '        dst.write_u32(self.num_limbs as u32)')], ['C17'], 'R17.1'),
+ ('c19_constants_unsorted', [('plonky2/src/plonk/circuit_builder.rs', '            .sorted_by_key(|(c, _t)| c.to_canonical_u64())\n', '')], ['C19'], 'R19.1'),
+ ('c19_gates_unsorted', [('plonky2/src/plonk/circuit_builder.rs', '        gates.sort_unstable_by_key(|g| (g.0.degree(), g.0.id()));\n', '')], ['C19'], 'R19.'),
+ ('c12_right_digest_not_written', [('plonky2/src/hash/merkle_tree.rs', '        right_digest_mem.write(right_digest);\n', '')], ['C12'], 'R12.2'),
+ ('c12_set_len_wrong_expr', [('plonky2/src/hash/merkle_tree.rs', '            digests.set_len(num_digests);', '            digests.set_len(num_digests + len_cap - len_cap);')], ['C12'], 'R12.1'),
+ ('c09_transition_uses_first_row_filter', [('starky/src/constraint_consumer.rs', '        self.constraint(constraint * self.z_last);', '        self.constraint(constraint * self.lagrange_basis_first);')], ['C09'], 'R09.1'),
+ ('c09_quotient_identity_skips_first_chunk', [('starky/src/verifier.rs', '        .flat_map(|x| x.chunks(stark.quotient_degree_factor()))\n        .enumerate()\n    {', '        .flat_map(|x| x.chunks(stark.quotient_degree_factor()))\n        .enumerate()\n        .skip(1)\n    {')], ['C09'], 'R09.2'),
+ ('c20_select_hash_swapped_args', [('plonky2/src/recursion/conditional_recursive_verifier.rs', '            circuit_digest: self.select_hash(b, vk0.circuit_digest, vk1.circuit_digest),', '            circuit_digest: self.select_hash(b, vk1.circuit_digest, vk0.circuit_digest),')], ['C20'], 'R20.1'),
+ ('c02_filter_not_applied', [('plonky2/src/gates/gate.rs', '            .map(|c| filter * c)\n', '            .map(|c| c)\n')], ['C02'], 'R02.3'),
+]
+BEHAVIOUR_PRESERVING += [
+ ('bp_rename_param_verify_fri_proof', [('plonky2/src/fri/verifier.rs', '    proof: &FriProof<F, C::Hasher, D>,\n    params: &FriParams,\n) -> Result<()> {\n    validate_fri_proof_shape::<F, C, D>(proof, instance, params)?;', '    fri_proof: &FriProof<F, C::Hasher, D>,\n    params: &FriParams,\n) -> Result<()> {\n    let proof = fri_proof;\n    validate_fri_proof_shape::<F, C, D>(fri_proof, instance, params)?;')], ['C05', 'C03', 'C18'], None),
+ ('bp_rename_local_in_inferred', [('plonky2/src/plonk/get_challenges.rs', '            for (i, &arity_bits) in common_data\n                .fri_params\n                .reduction_arity_bits\n                .iter()\n                .enumerate()\n            {\n                let coset_index = x_index >> arity_bits;', '            for (i, &ab) in common_data\n                .fri_params\n                .reduction_arity_bits\n                .iter()\n                .enumerate()\n            {\n                let arity_bits = ab;\n                let coset_index = x_index >> arity_bits;')], ['C16'], None),
+ ('bp_ensure_as_match_in_validator', [('plonky2/src/plonk/validate_shape.rs', '    ensure!(wires.len() == config.num_wires);', '    if wires.len() != config.num_wires {\n        anyhow::bail!("wrong number of wires");\n    }')], ['C18', 'C03'], None),
+ ('bp_select_cap_loop_instead_of_zip', [('plonky2/src/recursion/conditional_recursive_verifier.rs', '        MerkleCapTarget(\n            cap0.0\n                .iter()\n                .zip_eq(&cap1.0)\n                .map(|(h0, h1)| self.select_hash(b, *h0, *h1))\n                .collect(),\n        )', '        let mut out = Vec::new();\n        for i in 0..cap0.0.len() {\n            out.push(self.select_hash(b, cap0.0[i], cap1.0[i]));\n        }\n        MerkleCapTarget(out)')], ['C20'], None),
+]
+
 def run(name, subs, checks):
     args = [os.path.join(V, 'selftest', 'mutrun.py')]
     for f, o, n in subs:
